@@ -90,7 +90,7 @@ impl World {
             }
         }
         // ---- C08 (i): no lost wake-up (prompt clock families; computed from the snapshot)
-        if self.cfg.clock == Clock::Prompt && !self.after_reset && !self.connection_error() {
+        if !self.after_reset && !self.connection_error() {
             self.check_wakeup(&s);
         }
         // ---- C14: idle past the keep-alive without transmission
@@ -358,6 +358,8 @@ impl World {
             s.next_ping_in_ms.hash(h); s.ping_timeout_in_ms.hash(h); s.connack_timeout_in_ms.hash(h);
             s.slow_start_ack_count.hash(h);
             s.settings.hash(h);
+            s.decoder.hash(h);
+            s.encoder_steps_left.hash(h);
             self.eng.inbound_aliases().hash(h);
             // model state
             self.outbuf.hash(h);
@@ -367,7 +369,7 @@ impl World {
             self.success_history.hash(h); self.broker_has_session.hash(h); self.assigned_client_id.hash(h);
             self.id_holders.hash(h); self.inbound_q2_open.hash(h); self.interrupted.hash(h);
             self.disconnect_submitted.hash(h);
-            self.pending_resolves.hash(h); self.phantom_aliases.hash(h);
+            self.pending_resolves.hash(h); self.phantom_aliases.hash(h); self.resolver_history.hash(h);
             self.idle_service_streak.min(2).hash(h);
             self.violations.iter().map(|v| (&v.property, &v.signature)).collect::<Vec<_>>().hash(h);
             for op in &self.ops {
